@@ -5,6 +5,8 @@
 //                API, and the same model after print -> parse) is cloned; oracle before mutation; then EVERY single mutation of
 //                the mutation alphabet on the original, and separately on the clone, must leave the other side unchanged.
 //   clone-parsed-pre : the oracle before mutation only (thorough: under ASan, while clone-parsed runs on the plain build)
+//   resets-api : the reset-link grid (2 shapes x where the reset's variable lives x where its test_variable lives, each of
+//                {own, sibling, child, no component, null} x order set/unset = 100 models), same oracle and mutation phase
 //   foreign-eq : models one of whose variables is equivalent to a variable outside the model (orphan / orphan component /
 //                other model): carve-out of the semantic oracle (what a copy of such a link should be is not stated); judged:
 //                no crash, and the clone's equivalences among its OWN variables are exactly the original's.
@@ -105,6 +107,59 @@ static json modelSpec(const Dims &d)
     }
     return m;
 }
+
+// ---- the reset-link grid: WHERE the variable and the test_variable of a reset live, independently
+// shapes: R0 = model{ A{K}, S }   R1 = model{ P{ A{K}, S } }   (reset owner A, child K, sibling S); every component has v1, v2
+static const char *LOCS[] = {"own-component", "sibling-component", "child-component", "no-component", "null"};
+static uint64_t resetGridCount() { return 2 * 5 * 5 * 2; }
+struct RDims { int shape, vloc, tloc, order; };
+static RDims rdimsAt(uint64_t i)
+{
+    Radix r(i);
+    RDims d;
+    d.vloc = int(r.take(5)); d.tloc = int(r.take(5)); d.order = int(r.take(2)); d.shape = int(r.take(2));
+    return d;
+}
+static json rdimsJson(const RDims &d)
+{
+    return {{"grid", "reset-links"}, {"shape", d.shape == 0 ? "model{A{K},S}" : "model{P{A{K},S}}"}, {"reset_owner", "A"}, {"variable_in", LOCS[d.vloc]}, {"test_variable_in", LOCS[d.tloc]},
+            {"order", d.order ? "set" : "unset"}};
+}
+static json resetGridSpec(const RDims &d)
+{
+    auto comp = [](const std::string &n) {
+        return json{{"k", "comp"}, {"name", n}, {"id", n + "_id"}, {"eid", n + "_eid"}, {"math", ""},
+                    {"variables", json::array({{{"k", "var"}, {"name", "v1"}, {"id", n + "_v1"}, {"iv", "1.0"}, {"iface", "public_and_private"}, {"u", {{"k", "units"}, {"name", "u1"}, {"link", true}}}},
+                                               {{"k", "var"}, {"name", "v2"}, {"id", n + "_v2"}, {"iv", ""}, {"iface", "public"}, {"u", {{"k", "units"}, {"name", "second"}}}}})},
+                    {"resets", json::array()}, {"components", json::array()}};
+    };
+    json A = comp("A"), K = comp("K"), S = comp("S");
+    json pA = d.shape == 0 ? json::array({0}) : json::array({0, 0}), pK = d.shape == 0 ? json::array({0, 0}) : json::array({0, 0, 0}), pS = d.shape == 0 ? json::array({1}) : json::array({0, 1});
+    auto ref = [&](int loc, int index) -> json {
+        auto at = [&](json path) { path.push_back(index); return path; };
+        switch (loc) {
+        case 0: return index;
+        case 1: return at(pS);
+        case 2: return at(pK);
+        case 3: return json{{"k", "var"}, {"name", index == 0 ? "v1" : "v2"}, {"id", "nowhere_" + std::to_string(index)}, {"iv", "3"}, {"iface", "public"}, {"u", {{"k", "units"}, {"name", "second"}}}};
+        default: return nullptr;
+        }
+    };
+    json r = {{"k", "reset"}, {"id", "r1"}, {"oset", bool(d.order)}, {"order", 3}, {"var", ref(d.vloc, 0)}, {"tvar", ref(d.tloc, 1)}, {"tval", MATH_A}, {"tid", "r1_t"}, {"rval", MATH_C}, {"rid", "r1_r"}};
+    A["resets"].push_back(r);
+    A["components"].push_back(K);
+    json m = {{"k", "model"}, {"name", "m"}, {"id", "m_id"}, {"eid", "m_eid"},
+              {"units", json::array({{{"k", "units"}, {"name", "u1"}, {"id", "u1_id"}, {"unit", json::array({{{"ref", "second"}, {"prefix", "milli"}, {"exp", -1.0}, {"mult", 1.0}, {"id", "u1a"}}})}}})},
+              {"components", json::array()}, {"eqs", json::array()}};
+    if (d.shape == 0) { m["components"].push_back(A); m["components"].push_back(S); }
+    else { json P = comp("P"); P["components"].push_back(A); P["components"].push_back(S); m["components"].push_back(P); }
+    auto v = [](json p, int i) { p.push_back(i); return p; };
+    m["eqs"].push_back({{"a", v(pA, 0)}, {"b", v(pK, 0)}, {"mid", "map1"}, {"cid", "con1"}});
+    return m;
+}
+static int g_grid = 0; // 0: the 8-dimension model grid, 1: the reset-link grid
+static json specOf(uint64_t i) { return g_grid ? resetGridSpec(rdimsAt(i)) : modelSpec(dimsAt(i)); }
+static json whereOf(uint64_t i) { return g_grid ? rdimsJson(rdimsAt(i)) : dimsJson(dimsAt(i)); }
 
 // ------------------------------------------------------------------------------------------------ worlds
 static PrinterPtr g_printer;
@@ -624,6 +679,50 @@ static void judgeEntity(const Source &src, size_t ei, Ctx &c, const json &where)
         for (auto &s : sharedKinds) c.violation("clone:" + kind + ":shares-object-with-original:" + s, det({}));
         c.outcome(sharedKinds.empty() ? "identity:disjoint" : "identity:shared-object");
     }
+    // links of resets (component and model clones). Decided from the statement + the documentation of Component::clone()
+    // ("full separate copy ... recreating the full component hierarchy"):
+    //  * STRICT: a link to a variable of the reset's OWN component must, in the clone, be the variable at the same position of the
+    //    clone's corresponding component (the one re-targeting the code and its documentation establish);
+    //  * STRICT (elsewhere in this oracle): presence and name of variable / test_variable (field diff), equals both ways, printed
+    //    form, and the linked object never being an object of the original's graph (identity);
+    //  * a link to a variable of ANOTHER component (inside or outside the cloned subtree) or of no component: the statement asks
+    //    for the same serialisation, equality and independence, not for re-targeting; what the clone does is recorded, not judged.
+    if (kind == "component" || kind == "model") {
+        std::vector<std::pair<ComponentPtr, ComponentPtr>> stack;
+        if (auto m = std::dynamic_pointer_cast<Model>(e)) {
+            auto km = std::dynamic_pointer_cast<Model>(k);
+            for (size_t i = 0; i < m->componentCount() && i < km->componentCount(); ++i) stack.push_back({m->component(i), km->component(i)});
+        } else stack.push_back({std::dynamic_pointer_cast<Component>(e), std::dynamic_pointer_cast<Component>(k)});
+        std::map<const Variable *, std::string> insideOriginal, insideClone;
+        {
+            std::vector<VariablePtr> tmp;
+            for (auto &pr : stack) { eqMapOf(pr.first, "r", insideOriginal, tmp); eqMapOf(pr.second, "r", insideClone, tmp); }
+        }
+        while (!stack.empty()) {
+            auto pr = stack.back();
+            stack.pop_back();
+            for (size_t i = 0; i < pr.first->componentCount() && i < pr.second->componentCount(); ++i) stack.push_back({pr.first->component(i), pr.second->component(i)});
+            for (size_t i = 0; i < pr.first->resetCount() && i < pr.second->resetCount(); ++i)
+                for (int t = 0; t < 2; ++t) {
+                    auto ov = t ? pr.first->reset(i)->testVariable() : pr.first->reset(i)->variable();
+                    auto kv = t ? pr.second->reset(i)->testVariable() : pr.second->reset(i)->variable();
+                    const char *which = t ? "test_variable" : "variable";
+                    if (!ov) { c.outcome(std::string("reset-link:") + which + ":null"); continue; }
+                    size_t idx = 0;
+                    while (idx < pr.first->variableCount() && pr.first->variable(idx) != ov) ++idx;
+                    if (idx < pr.first->variableCount()) {
+                        c.outcome(std::string("reset-link:") + which + ":own-component");
+                        if (kv != pr.second->variable(idx))
+                            c.violation("clone:" + kind + ":reset-link-to-own-component-not-retargeted:" + which,
+                                        det({{"clone_link", kv ? (kv->parent() ? "variable of some component" : "parentless variable") : "null"}}));
+                        continue;
+                    }
+                    std::string where = insideOriginal.count(ov.get()) ? "other-component-inside-cloned-subtree" : ov->parent() ? "component-outside-cloned-subtree" : "no-component";
+                    std::string got = !kv ? "null" : insideClone.count(kv.get()) ? "clone's-own-variable" : kv->parent() ? "variable-of-a-foreign-component" : "private-parentless-copy";
+                    c.outcome(std::string("reset-link:") + which + ":" + where + "->" + got);
+                }
+        }
+    }
     // equivalences of a cloned model connect only its own variables; a lone component/variable has none
     if (auto km = std::dynamic_pointer_cast<Model>(k)) {
         auto ek = eqInfoOf(km), eo = eqInfoOf(w->model);
@@ -695,7 +794,7 @@ static void judgeEntity(const Source &src, size_t ei, Ctx &c, const json &where)
 static Source sourceAt(uint64_t i, bool parsed, Ctx *c)
 {
     Source s;
-    s.spec = modelSpec(dimsAt(i));
+    s.spec = specOf(i);
     s.parsed = parsed;
     if (s.parsed) {
         Builder b;
@@ -712,7 +811,7 @@ static void runClone(uint64_t i, bool parsed, Ctx &c, bool mutate = true)
     g_printer->printModel(Model::create("x"));
     Source s = sourceAt(i, parsed, &c);
     if (s.parsed && s.text.empty()) { c.outcome("origin-parsed:not-printable"); return; }
-    json where = {{"dims", dimsJson(dimsAt(i))}, {"origin", s.parsed ? "printed-then-parsed" : "api"}};
+    json where = {{"dims", whereOf(i)}, {"origin", s.parsed ? "printed-then-parsed" : "api"}};
     auto w = fresh(s, c);
     c.outcome(std::string("origin:") + (s.parsed ? "parsed" : "api"));
     c.count("entities", w->ents.size());
@@ -784,6 +883,8 @@ int main(int argc, char **argv)
          [](uint64_t i) { Source s = sourceAt(i, true, nullptr); return json{{"dims", dimsJson(dimsAt(i))}, {"origin", "printed-then-parsed"}, {"spec", s.spec}, {"document", s.text}}; }},
         {"clone-parsed-pre", specCount, [](uint64_t i, Ctx &c) { runClone(i, true, c, false); },
          [](uint64_t i) { Source s = sourceAt(i, true, nullptr); return json{{"dims", dimsJson(dimsAt(i))}, {"origin", "printed-then-parsed"}, {"mutations", false}, {"document", s.text}}; }},
+        {"resets-api", resetGridCount, [](uint64_t i, Ctx &c) { g_grid = 1; runClone(i, false, c); g_grid = 0; },
+         [](uint64_t i) { g_grid = 1; json j = {{"dims", whereOf(i)}, {"origin", "api"}, {"spec", specOf(i)}}; g_grid = 0; return j; }},
         {"foreign-eq", foreignCount, runForeign, [](uint64_t i) { Radix r(i); int sh = int(r.take(4)), o = int(r.take(3)), in = int(r.take(2)); return json{{"shape", sh}, {"outside", o}, {"internal", in}}; }},
     };
     return harnessMain(argc, argv, fs);
